@@ -127,6 +127,7 @@ def register(w):
         raises=set(), ret=Enum("DataType"), props=["C05"], inline_callees=True,
     ))
     register_pipeline(w)
+    register_builder_payload(w)
 
 
 def register_bounded_constants(w):
@@ -216,4 +217,86 @@ def register_pipeline(w):
         ensures=[("every_stage_runs_under_the_requested_precision_in_order", post_stages), ("x64_flag_as_before", post_flag)],
         exc_ensures=[("stages_so_far_ran_under_the_requested_precision", exc_stages), ("x64_flag_as_before", post_flag)],
         ret=Ref(OPQ), props=["C09", "C13"], opaque_externals=True, witnesses=["C09_function_body_constants_follow_precision"],
+    ))
+
+
+def register_builder_payload(w):
+    """IRBuilder.add_initializer_from_scalar: the payload handed to ir.tensor is np.asarray(value) itself when double precision
+    is enabled or the value is not floating, and its float32 cast otherwise - in graph mode and in function mode alike."""
+    from specs import nparr, ctxmodel, opaque
+    from specs.nparr import FARR, K_FLOAT
+    from specs.ctxmodel import BLD
+    from specs.opaque import OPQ
+    opaque.install(w)
+    N = nparr.register(w) if getattr(w, "npmodel", None) is None else w.npmodel
+    ctxmodel.register(w)
+    MB = "jax2onnx.converter.ir_builder"
+    w.fields[(BLD, "_function_mode")] = Bool
+    w.fields[(BLD, "graph")] = Ref(OPQ)
+    w.fields[(BLD, "_tape_builder")] = Ref(OPQ)
+    w.fields[(BLD, "nodes")] = Ref(OPQ)
+    as_f32 = w.fn("astype_float32", N.A, N.A)
+
+    def astype_hook(ex, recv, name, args, kw):
+        if name == "astype" and N.is_arr(recv) and args and isinstance(args[0], VPy) and args[0].path == "numpy.float32":
+            r = as_f32(recv.term)
+            ex.assume(z3.And(r != null_of(FARR), N.dkind(r) == K_FLOAT, N.shape(r) == N.shape(recv.term), N.size(r) == N.size(recv.term), N.ndim(r) == N.ndim(recv.term)))
+            return (VRef(FARR, r),)
+        return None
+    w.method_hooks.insert(0, astype_hook)
+
+    def record_payloads(ex, env):
+        """ghost: every array handed to ir.tensor while this function runs (wraps whichever model of ir.tensor is installed)"""
+        cur = w.path_models.get("onnx_ir.tensor")
+        if getattr(cur, "_records_payload", False):
+            return
+
+        def rec(ex2, args, kw):
+            if args and N.is_arr(args[0]):
+                ex2.ghost.setdefault("tensor_payloads", []).append(args[0].term)
+            elif "tensor_payloads" in ex2.ghost or (ex2.frames and ex2.frames[0].get("fid", "").endswith("add_initializer_from_scalar")):
+                raise OutOfSubset("ir.tensor of something that is not a modelled array")
+            return cur(ex2, args, kw) if cur is not None else opaque.fresh_opaque(ex2)
+        rec._records_payload = True
+        w.path_models["onnx_ir.tensor"] = rec
+    mk_shape0 = w.path_models.get("onnx_ir.Shape()")
+
+    def mk_shape(ex, args, kw):
+        # ir.Shape(arr.shape): the dims of a numpy shape tuple are not modelled - a shape object with unknown integer dims
+        if args and isinstance(args[0], VRef) and args[0].sort == nparr.SHP:
+            from specs.ctxmodel import SHAPE, IRDIM
+            r = ex.new_object(SHAPE, "irshape")
+            d = ex.fresh("npdims", Seq(IRDIM))
+            ex.assume(d.length >= 0)
+            ex.write_field(r, "dims", d)
+            return r
+        return mk_shape0(ex, args, kw)
+    if mk_shape0 is not None:
+        w.path_models["onnx_ir.Shape()"] = mk_shape
+
+    w.add_contract(Contract("jax2onnx.ir_utils:const_value_to_numpy", params={"value": Ref(OPQ)}, ret=Opt(Ref(FARR)), assumed=True,
+                            note="numpy view of a value's constant payload, or None"))
+
+    w.add_contract(Contract(f"{MB}:_dtype_to_ir", params={"dtype": Ref(nparr.DT), "enable_double": Bool}, ret=Enum("DataType"), assumed=True,
+                            note="declared element type for a numpy dtype (the policy itself is numpy_dtype_to_ir_with_float_policy, under contract over the dtype table)"))
+
+    w.add_contract(Contract(f"{MB}:IRBuilder._maybe_attach_stacktrace_to_nodes", params={"self": Ref(BLD), "nodes": Ref(OPQ)}, ret=NoneT, assumed=True,
+                            note="debug metadata on freshly created nodes; no effect on payloads"))
+
+    def post_payload(c: Ctx):
+        ex = c.ex
+        got = ex.ghost.get("tensor_payloads", [])
+        a0 = c["value"].term
+        dbl = ex.truthy(ex.read_field(c["self"], "enable_double_precision", heap=c.old_heap) if False else ex.read_field(c["self"], "enable_double_precision"))
+        want = z3.If(z3.And(z3.Not(dbl), N.dkind(a0) == K_FLOAT), as_f32(a0), a0)
+        if len(got) > 1:
+            return z3.BoolVal(False)
+        if not got:
+            return z3.BoolVal(True)       # the existing-initializer path stores nothing new
+        return got[0] == want
+
+    w.add_contract(Contract(
+        f"{MB}:IRBuilder.add_initializer_from_scalar", params={"self": Ref(BLD), "name": Str, "value": Ref(FARR)},
+        ensures=[("stored_payload_follows_the_precision_policy_in_every_mode", post_payload)], raises={"ValueError"}, ret=Ref(OPQ),
+        props=["C09"], opaque_externals=True, witnesses=["C09_builder_payload_family"], ghost_init=record_payloads,
     ))
